@@ -11,7 +11,7 @@ F1 writer side, F2 way back, T1 construction of the permutation, G1 class counte
 are null-checked before use, O1 the objective value is recomputed from the un-permuted vector.
 """
 import itertools, math, re
-from ..cfg import Facts, kids, strip, walk, cv, render, call_args, call_object
+from ..cfg import Facts, kids, strip, walk, cv, render, call_args, call_object, norm_facts
 from ..cfg import short_loc as _short_loc
 from ..facts import export_many, AnalysisBroken
 
@@ -112,6 +112,49 @@ class Spaces:
             return tv
         b = self.bind.get(tv)
         return b[0] if b else None
+
+
+HELPERS = {}         # qualified name -> function (unique names only): helpers whose index uses are charged to their call sites
+_SUMMARY = {}
+
+
+def helper_summary(h, depth=0):
+    """[(parameter position, "arr", array alias | position of the array parameter) | (parameter position, "call", callee)]:
+    how a helper uses its by-value integer parameters as indices"""
+    if h is None or depth > 2 or h.qn == FE + "::MarkNonlinearInObj" or h.qn in (FE + "::VPerm", FE + "::VPermInv"):
+        return []
+    if h.full in _SUMMARY:
+        return _SUMMARY[h.full]
+    _SUMMARY[h.full] = []
+    T = FuncTyper(h, Spaces())
+    pos = {p["declId"]: i for i, p in enumerate(h.params)}
+    byval = {p["declId"] for p in h.params if "&" not in (p.get("ct") or p.get("t") or "") and "*" not in (p.get("ct") or p.get("t") or "")}
+    out = []
+
+    def par(n):
+        n = strip(n)
+        while n["k"] in ("CStyleCastExpr", "CXXStaticCastExpr", "CXXFunctionalCastExpr") and kids(n):
+            n = strip(kids(n)[0])
+        return pos[n["declId"]] if n["k"] == "DeclRefExpr" and n.get("declId") in byval else None
+    for n in h.walk():
+        s_ = T.subscript(n)
+        if s_ and par(s_[1]) is not None:
+            b = strip(s_[0])
+            if b["k"] == "DeclRefExpr" and b.get("declId") in pos:
+                out.append((par(s_[1]), "arr", pos[b["declId"]]))
+            elif T.alias(b):
+                out.append((par(s_[1]), "arr", T.alias(b)))
+        if n["k"] in ("CXXMemberCallExpr", "CallExpr"):
+            for j, a in enumerate(call_args(n)):
+                if par(a) is None:
+                    continue
+                if n.get("callee") in (FE + "::VPerm", FE + "::VPermInv"):
+                    out.append((par(a), "call", n["callee"]))
+                for kx, kind, tgt in helper_summary(HELPERS.get(n.get("calleeFull") or "") or HELPERS.get(n.get("callee") or ""), depth + 1):
+                    if kx == j and (kind == "call" or isinstance(tgt, str)):
+                        out.append((par(a), kind, tgt))
+    _SUMMARY[h.full] = out
+    return out
 
 
 class FuncTyper:
@@ -238,7 +281,13 @@ class FuncTyper:
         sub = self.subscript(e)
         if sub:
             arr, idx = sub
-            name = self.alias(arr)
+            return self.sub_use(e, self.alias(arr), idx, vk)
+        return self.ty_rest(e, vk)
+
+    def sub_use(self, e, name, idx, vk):
+        """constraints and value space of `name[idx]` (e: the node to report)"""
+        S = self.S
+        if True:
             it = self.ty(idx, vk)
             S.sites += 1
             if name is not None:
@@ -260,6 +309,10 @@ class FuncTyper:
                     val = {("K", True): "C", ("KP", True): "P", ("K", False): "K", ("KP", False): "K"}[(val, vk)]
                 return val
             return None
+
+    def ty_rest(self, e, vk):
+        k = e["k"]
+        S = self.S
         if k == "MemberExpr":
             ks = kids(e)
             nm = e.get("name")
@@ -303,6 +356,17 @@ class FuncTyper:
                 self.require(args[0], self.ty(args[0], vk), "C", "argument of MarkNonlinearInObj", vk)
                 S.sites += 1
                 return None
+            # a helper that uses a by-value parameter as an index: the argument is used like that at this call
+            for kx, kind, tgt in helper_summary(HELPERS.get(e.get("calleeFull") or "") or HELPERS.get(e.get("callee") or "")):
+                if kx >= len(args):
+                    continue
+                if kind == "arr":
+                    name = tgt if isinstance(tgt, str) else (self.alias(args[tgt]) if tgt < len(args) else None)
+                    if name is not None:
+                        self.sub_use(e, name, args[kx], vk)
+                elif tgt in (FE + "::VPerm", FE + "::VPermInv"):
+                    self.require(args[kx], self.ty(args[kx], vk), "C" if tgt.endswith("VPerm") else "P", "argument of %s (through %s)" % (tgt.split("::")[-1], nm), vk)
+                    S.sites += 1
             if k == "CXXMemberCallExpr":
                 obj = call_object(e)
                 if obj is not None:
@@ -535,11 +599,21 @@ def run(rep, ctx):
     repo = ctx["repo"]
     _REPO[0] = repo
     fn = [FE + r"::.*", SH + r"::.*", r"mp::NLModel::(ComputeObjValue|WriteNL)", r"mp::NLSolver::(Solve|LoadModel|ReadSolution)"]
-    jobs = [dict(unit=U, fn=fn, repo=repo),
+    jobs = [dict(unit=U, fn=fn, repo=repo, closure=1, closure_roots="^" + FE + "::"),
             dict(unit="nl-writer2/src/nl-solver-c.cc", fn=[r"NLW2_.*Solve.*", r".*ReadSolution.*", r".*ComputeObjValue.*"], repo=repo)]
     F = Facts(export_many(jobs))
     rep.note_units([U, "nl-writer2/src/nl-solver-c.cc"])
     funcs = [f for f in F.funcs if not f.is_dependent() and f.cfg is not None and f.unit == U]
+    HELPERS.clear()
+    _SUMMARY.clear()
+    cnt_ = {}
+    for f in funcs:
+        cnt_[f.qn] = cnt_.get(f.qn, 0) + 1
+    for f in funcs:
+        if f.params and len(list(f.walk())) < 400:
+            HELPERS[f.full] = f
+            if cnt_[f.qn] == 1:
+                HELPERS[f.qn] = f
     rep.note_funcs(funcs)
 
     def all_of(qn):
@@ -765,17 +839,42 @@ def run(rep, ctx):
     COUNTERS = ["num_nl_integer_vars_in_objs", "num_linear_binary_vars", "num_linear_integer_vars", "num_nl_vars_in_objs",
                 "num_nl_vars_in_cons", "num_nl_vars_in_both", "num_nl_integer_vars_in_both", "num_nl_integer_vars_in_cons"]
     writers = {}
+    # the functions that can modify the feeder's state: its members, and helpers that get a counter or the flag vector by
+    # reference (analysed once per call site, with the reference parameters read as the arguments they are bound to)
+    sites = [(f, {}) for f in funcs if f.qn.startswith(FE + "::")]
+    byqn_ = {}
     for f in funcs:
-        if not f.qn.startswith(FE + "::"):
-            continue
+        byqn_.setdefault(f.qn, []).append(f)
+    for f in [g_ for g_, _ in list(sites)]:
+        for c in f.walk():
+            if c["k"] != "CallExpr" or (c.get("callee") or "").startswith(FE + "::"):
+                continue
+            for h in byqn_.get(c.get("callee") or "", []):
+                sub = {}
+                for p_, a_ in zip(h.params, call_args(c)):
+                    ta = render(a_).replace(" ", "").replace("this->", "")
+                    if "&" in (p_.get("ct") or p_.get("t") or "") and ("header_." in ta or ta.startswith("nlv_obj_")):
+                        sub[p_["name"]] = ta
+                if sub:
+                    sites.append((h, sub))
+
+    def rn(sub, node):
+        t = render(node).replace(" ", "").replace("this->", "")
+        m = re.match(r"^([A-Za-z_]\w*)(.*)$", t)
+        return (sub[m.group(1)] + m.group(2)) if m and m.group(1) in sub else t
+    for f, sub in sites:
         for n in f.walk():
             tgt = None
             if n["k"] == "UnaryOperator" and n.get("op") in ("++", "--"):
                 tgt = strip(kids(n)[0])
             elif n["k"] in ("BinaryOperator", "CompoundAssignOperator") and n.get("op", "").endswith("=") and n.get("op") not in ("==", "!=", "<=", ">="):
                 tgt = strip(kids(n)[0])
-            if tgt is not None and tgt["k"] == "MemberExpr" and tgt.get("name") in COUNTERS and "header_" in render(tgt):
-                writers.setdefault(tgt["name"], set()).add((f.name, n.get("op")))
+            if tgt is None:
+                continue
+            tt = rn(sub, tgt)
+            m = re.fullmatch(r"header_\.(\w+)", tt)
+            if m and m.group(1) in COUNTERS:
+                writers.setdefault(m.group(1), set()).add((f.name, n.get("op")))
     expect_w = {"num_nl_integer_vars_in_objs": {("PermuteVars", "++")}, "num_linear_binary_vars": {("PermuteVars", "++")},
                 "num_linear_integer_vars": {("PermuteVars", "++")}, "num_nl_vars_in_objs": {("MarkNonlinearInObj", "++")}}
     for c in COUNTERS:
@@ -800,9 +899,13 @@ def run(rep, ctx):
                 break
         return (render(c).replace(" ", ""), pol)
     nsites = 0
-    for g in [f for f in funcs if f.qn.startswith(FE + "::")]:
-        incs = [n for n in g.walk() if n["k"] == "UnaryOperator" and n.get("op") == "++" and render(kids(n)[0]).endswith("num_nl_vars_in_objs")]
-        sets = [n for n in g.walk() if n["k"] == "CXXOperatorCallExpr" and n.get("op") == "=" and render(call_args(n)[0]).startswith("nlv_obj_[")]
+    seen_g = set()
+    for g, sub in sites:
+        if (g.full, tuple(sorted(sub.items()))) in seen_g:
+            continue
+        seen_g.add((g.full, tuple(sorted(sub.items()))))
+        incs = [n for n in g.walk() if n["k"] == "UnaryOperator" and n.get("op") == "++" and rn(sub, kids(n)[0]).endswith("header_.num_nl_vars_in_objs")]
+        sets = [n for n in g.walk() if n["k"] == "CXXOperatorCallExpr" and n.get("op") == "=" and rn(sub, call_args(n)[0]).startswith("nlv_obj_[")]
         for inc in incs:
             nsites += 1
             facts = [flag_fact(g, cid, pol) for cid, pol in g.cfg.facts_at(inc) if pol in (True, False)]
@@ -991,6 +1094,11 @@ def run(rep, ctx):
         for n in walk(ib):
             if n["k"] in ("CXXMemberCallExpr", "CallExpr") and n.get("callee", "").split("::")[-1] in ("VPerm", "MarkNonlinearInObj"):
                 idx.add(sub(sub(norm(render(call_args(n)[0])), ii, "p"), oi, "I"))
+            elif n["k"] in ("CXXMemberCallExpr", "CallExpr"):
+                for kx, kind, tgt in helper_summary(HELPERS.get(n.get("calleeFull") or "") or HELPERS.get(n.get("callee") or "")):
+                    nm_ = (tgt if isinstance(tgt, str) else (T.alias(call_args(n)[tgt]) if tgt < len(call_args(n)) else None)) if kind == "arr" else tgt
+                    if kx < len(call_args(n)) and (nm_ in ("obj_grad_supp_", "x", "nlv_obj_") or nm_ == FE + "::VPerm"):
+                        idx.add(sub(sub(norm(render(call_args(n)[kx])), ii, "p"), oi, "I"))
             s_ = T.subscript(n)
             if s_ and T.alias(s_[0]) in ("obj_grad_supp_", "x", "nlv_obj_"):
                 idx.add(sub(sub(norm(render(s_[1])), ii, "p"), oi, "I"))
@@ -1079,8 +1187,10 @@ def run(rep, ctx):
     ok = len(asg) == 1 and len(rd) == 1 and render(kids(asg[0])[1]).replace(" ", "") in ("mdl.ComputeObjValue(sol.x_.data())",) and g.cfg.dominates(rd[0], asg[0])
     o1.check(ok, "recompute", short_loc(g.loc), "sol.obj_val_ = mdl.ComputeObjValue(sol.x_.data()) after ReadSolution()",
              "objective assignment: %s" % [render(n) for n in asg])
-    guard = [render(g.nodes[cid]) for cid, pol in g.cfg.facts_at(asg[0]) if pol is True] if asg else []
-    o1.check(any("x_.size()" in t for t in guard), "only-with-values", short_loc(g.loc), "the value is computed only when primal values were returned")
+    guard = norm_facts(g, asg[0], canon=True) if asg else []
+    nonempty = lambda t, pol: (pol and re.fullmatch(r"sol\.x_\.size\(\)(!=0|>0)?|0(!=|<)sol\.x_\.size\(\)", t) is not None) or \
+        (not pol and re.fullmatch(r"sol\.x_\.empty\(\)|!sol\.x_\.size\(\)|0==sol\.x_\.size\(\)|sol\.x_\.size\(\)==0|sol\.x_\.size\(\)<1", t) is not None)
+    o1.check(any(nonempty(t, pol) for t, pol in guard), "only-with-values", short_loc(g.loc), "the value is computed only when primal values were returned")
     rs = [f for f in funcs if f.qn == "mp::NLSolver::ReadSolution" and not f.params]
     if rs:
         h = rs[0]
